@@ -18,6 +18,14 @@ HARNESSES = [
     dict(name="options.n5", src="C06/options.c", defines=["N=5"], unwind=8,
          units=["src/main.c:parse_options,init_options"], timeout=200,
          bounds="all option strings of <= 5 bytes (all byte values)"),
+    dict(name="path.s3", src="C10/shape.c", defines=["SL=3"], unwind=13,
+         units=["src/extract.c:file_full_path,make_parent_directories,check_parent_directory"], timeout=300,
+         bounds="path, filename, extract_path: all strings of <= 3 bytes within the C11 guarantee (extract_path unconstrained), each may be NULL; use_path 0/1; lha_arch_exists/mkdir results arbitrary per call",
+         stubs=["lha_arch_exists / lha_arch_mkdir: recording stubs, arbitrary results", "malloc/strdup/free: typed static buffers (size asked is checked)", "safe_printf/safe_fprintf: no-ops"]),
+    dict(name="arch.trace", src="C10/excl.c", unwind=12,
+         units=["lib/lha_arch_unix.c:lha_arch_fopen,lha_arch_mkdir,lha_arch_chmod,lha_arch_chown,lha_arch_utime,lha_arch_exists"], timeout=120,
+         bounds="arbitrary uid/gid/perms/mode/timestamp; every libc call returns an arbitrary value within its contract",
+         stubs=["libc file calls: recording stubs with arbitrary results"]),
 ] + [
     dict(name="dirs.cat%d" % c, src="C06/dirs.c", defines=["M=3", "CAT=%d" % c], unwind=9,
          units=["lib/lha_reader.c:lha_reader_next_file,lha_reader_extract,extract_directory,end_of_top_dir,set_directory_metadata,extract_file,open_output_file,set_timestamps_from_header"], timeout=300, mem_gb=6,
